@@ -1,7 +1,7 @@
 """C15: (state, invalidating operation, subsequent use) triples for harness2 (HashMultiMap, Array / SegmentedArray with index
 iterators, DataTable).  Line format: <kind> <n> <mutator> <use> <flag>"""
 N_MUT = {'mm': 18, 'ar': 8, 'ai': 8, 'sa': 8, 'dt': 16}
-N_USE = {'mm': 28, 'ar': 28, 'ai': 28, 'sa': 28, 'dt': 34}
+N_USE = {'mm': 28, 'ar': 28, 'ai': 28, 'sa': 28, 'dt': 43}      # dt uses 34.. = index look-up handles (indexed table only)
 SIZES = {'mm': [3, 12, 40], 'ar': [0, 1, 3, 9, 70], 'ai': [0, 1, 3, 4, 5, 9], 'sa': [0, 1, 3, 9, 70, 300], 'dt': [4, 9, 40]}
 
 
@@ -13,8 +13,9 @@ def gen(ctx, scale):
             for m in range(N_MUT[kind]):
                 for u in range(N_USE[kind]):
                     if kind == 'dt':
-                        cases.append('dt %d %d %d 0' % (n, m, u))
-                        if n != 40 or scale > 1:
+                        if u < 34:
+                            cases.append('dt %d %d %d 0' % (n, m, u))
+                        if n != 40 or scale > 1 or u >= 34:
                             cases.append('dt %d %d %d 1' % (n, m, u))
                     else:
                         cases.append('%s %d %d %d 0' % (kind, n, m, u))
